@@ -438,6 +438,12 @@ impl<'a> FnScan<'a> {
                 let parts = split_top_commas(mac.tokens.clone());
                 if let Some((a, b)) = parts.first().and_then(|p| tts_range(p)) {
                     let cond = self.src[a..b].to_string();
+                    // the condition is macro input (tokens, not a visited expression): an R17 rule that matches it as a whole applies here too
+                    let ncond = norm_str(&cond).replace(' ', "");
+                    if let Some((_, to)) = self.rules.exprs.iter().find(|(p, _)| *p == ncond).cloned() {
+                        self.push_edit(start, end, format!("rt_assert({}){}", to, tail), "R1:assert+R17", vec![]);
+                        return true;
+                    }
                     self.push_edit(start, end, format!("rt_assert({}){}", cond, tail), "R1:assert", vec![cond]);
                     return true;
                 }
